@@ -1030,8 +1030,8 @@ class Engine:
             return self.length(state, v.args[0])
         if op == "owf":
             return v.args[2]       # Strobe output operations fill the whole buffer
-        if op == "elem" and v.args[0].op == "chunks" and v.args[0].args[2] == "chunks_exact":
-            return v.args[0].args[1]
+        if op in ("elem", "index") and v.args[0].op == "chunks" and v.args[0].args[2] == "chunks_exact":
+            return v.args[0].args[1]          # every chunk of chunks_exact(k) has exactly k elements
         if op == "copied":
             return v.args[1]
         if op == "as_array":
